@@ -221,6 +221,20 @@ const AXES: [(&str, &str, f64, f64, f64); 3] = [
     ("opsz", "Optical Size", 8.0, 8.0, 72.0),
 ];
 
+/// fontinfo keys with a direct MVAR tag / table field (see lean/Driver/C04.lean for the mapping)
+pub const METRIC_KEYS: &[(&str, f64)] = &[
+    ("openTypeOS2TypoAscender", 780.0), ("openTypeOS2TypoDescender", -220.0), ("openTypeOS2TypoLineGap", 90.0),
+    ("openTypeOS2WinAscent", 950.0), ("openTypeOS2WinDescent", 250.0),
+    ("openTypeOS2StrikeoutSize", 50.0), ("openTypeOS2StrikeoutPosition", 300.0),
+    ("openTypeOS2SubscriptXSize", 650.0), ("openTypeOS2SubscriptYSize", 600.0),
+    ("openTypeOS2SubscriptXOffset", 10.0), ("openTypeOS2SubscriptYOffset", 75.0),
+    ("openTypeOS2SuperscriptXSize", 640.0), ("openTypeOS2SuperscriptYSize", 610.0),
+    ("openTypeOS2SuperscriptXOffset", 20.0), ("openTypeOS2SuperscriptYOffset", 350.0),
+    ("postscriptUnderlinePosition", -100.0), ("postscriptUnderlineThickness", 50.0),
+    ("openTypeHheaAscender", 900.0), ("openTypeHheaDescender", -300.0), ("openTypeHheaLineGap", 40.0),
+    ("openTypeHheaCaretOffset", 5.0),
+];
+
 pub const GLYPH_NAMES: [&str; 16] = ["a", "b", "c", "d", "e", "f", "g", "h", "i", "j", "k", "l", "m", "n", "o", "p"];
 
 /// Random polygon / quadratic contour with distinct integer points.
@@ -374,15 +388,27 @@ pub fn gen_design(rng: &mut Rng, o: &GenOpts) -> Design {
         }
         if !locs.contains(&l) { locs.push(l); }
     }
-    let base_info: Vec<(String, f64)> = vec![
+    let mut base_info: Vec<(String, f64)> = vec![
         ("ascender".into(), 800.0), ("descender".into(), -200.0), ("xHeight".into(), 500.0), ("capHeight".into(), 700.0),
     ];
+    if o.vertical {
+        // fontc (like ufo2ft) builds vhea/vmtx/VVAR only when all three vhea metrics are defined
+        for (k, v) in [("openTypeVheaVertTypoAscender", 500.0), ("openTypeVheaVertTypoDescender", -500.0), ("openTypeVheaVertTypoLineGap", 0.0)] {
+            base_info.push((k.to_string(), v));
+        }
+    }
+    if o.metrics_vary {
+        // explicit values for every metric that has an MVAR tag (no fallback logic involved)
+        for (k, v) in METRIC_KEYS {
+            if rng.chance(3, 4) { base_info.push((k.to_string(), *v)); }
+        }
+    }
     for (i, l) in locs.iter().enumerate() {
         let mut m = Master { name: format!("M{i}"), style: if i == 0 { "Regular".into() } else { format!("Style{i}") }, loc: l.clone(), ..Default::default() };
         m.glyphs = if i == 0 { base.clone() } else {
             base.iter().map(|(n, g)| (n.clone(), vary_glyph(rng, g, 60, false))).collect()
         };
-        m.info = base_info.iter().map(|(k, v)| (k.clone(), if o.metrics_vary && i > 0 { v + rng.range(-50, 50) as f64 } else { *v })).collect();
+        m.info = base_info.iter().map(|(k, v)| (k.clone(), if o.metrics_vary && i > 0 && rng.chance(2, 3) { v + rng.range(-40, 40) as f64 } else { *v })).collect();
         d.masters.push(m);
     }
     // sparse per-glyph intermediate master as a layer of the default UFO
